@@ -15,6 +15,7 @@ struct C03Plan
   int nops;
   C03Op ops[12];
   int ctrl_in_loop;  // 1: start/stop are issued from the body of a second AsyncLoop
+  int crowd;         // > 0: that many other AsyncLoops (own thread each, idle or started and stopped) exist while the scripted one is used
   int busy_workers;  // 1: every tasking thread is occupied by long-running scheduled work from before the loop is constructed until after it is destroyed
 };
 enum {
@@ -42,5 +43,6 @@ void c03_ctrl_wait_done();    // thread 0 waits until the controlling loop has r
 void c03_blocker();           // body of the long-running work
 void c03_wait_blockers(int n);
 void c03_release_blockers();
+void c03_crowd_body();         // body of the other loops
 void c03_run();
 }
